@@ -5,8 +5,9 @@ import json, os, re, shutil, glob
 ROOT = '/verif/seeded'
 os.makedirs(ROOT, exist_ok=True)
 rows = []
-for out in sorted(glob.glob('/tmp/wt/C*-out')):
+for out in sorted(glob.glob('/tmp/wt/C*-out')) + sorted(glob.glob('/tmp/wt2/C*-out')):
     pid = os.path.basename(out)[:3]
+    rnd = 2 if out.startswith('/tmp/wt2') else 1
     for n in (1, 2):
         r = os.path.join(out, f'result{n}.json')
         if not os.path.exists(r):
@@ -14,9 +15,10 @@ for out in sorted(glob.glob('/tmp/wt/C*-out')):
         res = json.load(open(r))
         ok = all(res.get(k) is True for k in ('demo_passes_clean', 'applies', 'compiles', 'tests_pass', 'demo_fails_patched'))
         caught = res.get('caught_by', '').split()
-        d = os.path.join(ROOT, f'{pid}-{n}')
+        label = n + (rnd - 1) * 2
+        d = os.path.join(ROOT, f'{pid}-{label}')
         if not ok:
-            rows.append((pid, n, 'REJECTED (not confirmed: %s)' % res, [], ''))
+            rows.append((pid, n + (rnd - 1) * 2, 'REJECTED (not confirmed: %s)' % res, [], ''))
             continue
         os.makedirs(d, exist_ok=True)
         shutil.copy(os.path.join(out, f'patch{n}.diff'), os.path.join(d, 'patch.diff'))
@@ -30,7 +32,7 @@ for out in sorted(glob.glob('/tmp/wt/C*-out')):
             'files_changed': files,
             'what_it_needs_to_manifest_and_why (author notes)': notes,
             'confirmed_by_me': {
-                'scratch_worktree': f'/tmp/wt/{pid} (git worktree of /repo HEAD, removed afterwards)',
+                'scratch_worktree': f'{os.path.dirname(out)}/{pid} (git worktree of /repo HEAD, removed afterwards)',
                 'commands': [
                     'cargo run --offline --example seeded_demo   # demo on the clean tree: exit 0',
                     'git apply patch.diff && cargo build --offline   # compiles',
@@ -46,7 +48,7 @@ for out in sorted(glob.glob('/tmp/wt/C*-out')):
         }
         json.dump(meta, open(os.path.join(d, 'meta.json'), 'w'), indent=1)
         first = notes.strip().splitlines()[0] if notes.strip() else ''
-        rows.append((pid, n, 'confirmed', caught, first))
+        rows.append((pid, label, 'confirmed', caught, first))
 with open(os.path.join(ROOT, 'MATRIX.md'), 'w') as f:
     f.write('# Seeded changes and which quick checks catch them\n\n')
     f.write('Each change compiles, passes the 211 existing tests and fails its own demonstration (confirmed in a scratch worktree).\n')
